@@ -1354,8 +1354,15 @@ class Interp:
         what an iteration modifies whether or not the loop contract lists them (frame soundness)"""
         out = set()
         for nm in _mutated_names(body):
-            if isinstance(scope.vars.get(nm), VList):
+            cur = scope.vars.get(nm)
+            if isinstance(cur, VList):
                 out.add(nm)
+            elif isinstance(cur, (VSet, VDict)):
+                # sets and dicts have no symbolic representation: after the loop nothing is known about them (in place, so
+                # that every alias sees it); reading them is outside the subset
+                cur.abstract = True
+                if isinstance(cur, VSet):
+                    cur.items = []
         return out
 
     def _havoc(self, scope, names, spec, unset_unknown=True):
